@@ -48,26 +48,30 @@ class Tracer:
     def sv(self, v):
         return self.env[id(v)]
 
-    def apply(self, opname, args, attrs=None, n_out=1, like=None, outputs=None):
-        """args: list of ir.Value | python literal; like: index of the arg whose dtype literals share"""
+    def apply(self, opname, args, attrs=None, n_out=1, like=None, outputs=None, kw_inputs=None, positions=None):
+        """args: list of ir.Value | python literal; like: index of the arg whose dtype literals share.
+        kw_inputs: {input name: value} passed by KEYWORD; positions: the full positional input list they denote (None = omitted)"""
         from vp.symonnx import ops as O
         attrs = attrs or {}
         kw = dict(attrs)
         if outputs is not None:
             kw["_outputs"] = outputs
-        res = getattr(self.op, opname)(*args, **kw)
+        res = getattr(self.op, opname)(*args, **kw, **(kw_inputs or {}))
         res_list = list(res) if isinstance(res, (tuple, list)) else [res]
         like_dt = None
         if like is not None:
             like_dt = self.sv(args[like]).dtype
-        ins = [self.sv(a) if isinstance(a, ir.Value) else _lit_to_sv(a, like_dt) for a in args]
+        if positions is not None:
+            args = positions
+        ins = [None if a is None else self.sv(a) if isinstance(a, ir.Value) else _lit_to_sv(a, like_dt) for a in args]
         ctx = O.Ctx(self.opset, False)
         ctx.n_outputs = len(res_list)
         ctx.node_op = opname
         outs = O.OPS[opname](ins, {k: v for k, v in attrs.items()}, ctx)
         for v, s in zip(res_list, outs):
             self.env[id(v)] = s
-        self.log.append(f"{opname}({', '.join(a.name if isinstance(a, ir.Value) else repr(a) for a in args)}{', ' + str(attrs) if attrs else ''})")
+        self.log.append(f"{opname}({', '.join(a.name if isinstance(a, ir.Value) else repr(a) for a in args)}{', ' + str(attrs) if attrs else ''}"
+                        f"{' [inputs by keyword: ' + ', '.join(kw_inputs) + ']' if kw_inputs else ''})")
         return res
 
     def pick(self, dt=None, shape=None):
@@ -94,6 +98,14 @@ class Tracer:
             v = self.apply("Where", [c, a, r.choice(LITS_F)], like=1)
         elif k == 3:
             v = self.apply("Clip", [a, r.choice([-1.0, 0, -0.0]), r.choice([1.0, 2, 0.5])], like=0)
+        elif k == 8:
+            # an optional input skipped by giving a later one by keyword: it must keep its position
+            hi = r.choice([1.0, 2, 0.5])
+            lo = r.choice([-1.0, 0])
+            if r.random() < 0.6:
+                v = self.apply("Clip", [a], like=0, kw_inputs={"max": hi}, positions=[a, None, hi])
+            else:
+                v = self.apply("Clip", [a], like=0, kw_inputs={"max": hi, "min": lo}, positions=[a, lo, hi])
         elif k == 4:
             i = self.pick(DT.INT64)
             if i is None:
